@@ -232,6 +232,10 @@ _SELF = []
 
 def validated():
     """(ok, note): the emulator's own self-check (cached by arm32 in /verif/.build)."""
+    import os
+
+    if not _SELF and os.environ.get("VERIF_ARM32_FORCE_FAIL"):
+        _SELF.append((False, "forced by VERIF_ARM32_FORCE_FAIL (test of the refusal path)"))
     if not _SELF and arm32 is None:
         _SELF.append((False, "vf/arm32.py cannot be imported (%s)" % _IMPORT_ERROR))
     if not _SELF:
